@@ -46,10 +46,21 @@ func init() {
 			if err != nil {
 				continue
 			}
-			// time.Time values in a non-UTC location (what time.Now()/time.Unix() give callers)
-			localizeTimes(reflect.ValueOf(m).Elem(), cr.intn(2) == 0)
+			// time.Time values in a non-UTC location (what time.Now()/time.Unix() give callers).
+			// m is marshalled for the first time by the concurrent goroutines; the sequential baseline
+			// comes from a twin (a warm-up Marshal of m itself could hide a write-back); a second twin
+			// stays untouched for the "message unmodified" comparison.
+			fixedZone := cr.intn(2) == 0
+			localizeTimes(reflect.ValueOf(m).Elem(), fixedZone)
+			m0, err0 := u.build(ti, v, buildOpts{})
+			m1, err1 := u.build(ti, v, buildOpts{})
+			if err0 != nil || err1 != nil {
+				continue
+			}
+			localizeTimes(reflect.ValueOf(m0).Elem(), fixedZone)
+			localizeTimes(reflect.ValueOf(m1).Elem(), fixedZone)
 			before, _ := u.read(ti, m)
-			base, pan := safeMarshal(m)
+			base, pan := safeMarshal(m0)
 			if pan != "" {
 				continue
 			}
@@ -133,6 +144,8 @@ func init() {
 			}
 			if after, _ := u.read(ti, m); before != nil && after != nil && before.String() != after.String() {
 				bad = append(bad, "message-modified-by-Marshal")
+			} else if !sameTimes(reflect.ValueOf(m), reflect.ValueOf(m1)) {
+				bad = append(bad, "message-modified-by-Marshal(time.Time representation)")
 			}
 			status := "ok"
 			if len(bad) > 0 {
@@ -277,8 +290,10 @@ func isPkgLevel(p *ast.Package, id *ast.Ident) bool {
 
 // localizeTimes moves every non-zero time.Time reachable from v into a fixed non-UTC zone
 // (same instant): Marshal must not care, and must not write the value back.
+var verifZone = time.FixedZone("verif", 3600)
+
 func localizeTimes(v reflect.Value, fixed bool) {
-	loc := time.FixedZone("verif", 3600)
+	loc := verifZone
 	if !fixed {
 		loc = time.Local
 	}
@@ -343,4 +358,38 @@ func firstDiff(a, b *Val) string {
 		hy = len(y)
 	}
 	return x[lo:hx] + " <> " + y[lo:hy]
+}
+
+// sameTimes: every time.Time reachable from a equals (==: wall, ext and location pointer) its
+// counterpart in b; a and b are twins built from the same value.
+func sameTimes(a, b reflect.Value) bool {
+	if a.Kind() != b.Kind() {
+		return false
+	}
+	switch a.Kind() {
+	case reflect.Struct:
+		if a.Type() == timeType {
+			return a.Interface().(time.Time) == b.Interface().(time.Time)
+		}
+		for i := 0; i < a.NumField(); i++ {
+			if !sameTimes(a.Field(i), b.Field(i)) {
+				return false
+			}
+		}
+	case reflect.Ptr, reflect.Interface:
+		if a.IsNil() || b.IsNil() {
+			return a.IsNil() == b.IsNil()
+		}
+		return sameTimes(a.Elem(), b.Elem())
+	case reflect.Slice:
+		if a.Len() != b.Len() {
+			return false
+		}
+		for i := 0; i < a.Len(); i++ {
+			if !sameTimes(a.Index(i), b.Index(i)) {
+				return false
+			}
+		}
+	}
+	return true
 }
